@@ -4,9 +4,9 @@ open Py PyIR Bodies Model
 namespace C06BodiesDna
 set_option maxHeartbeats 4000000
 
-def selfObj (s : Text) : Val := colObj "NullableDnaString" (.str s)
-def E0 (s : Text) : Env := [("self", selfObj s)]
-def E (s : Text) (i : Nat) (c : Char) : Env := [("self", selfObj s), ("i", .int i), ("base", .str [c])]
+def selfObj (K : String) (s : Text) : Val := colObj K (.str s)
+def E0 (K : String) (s : Text) : Env := [("self", selfObj K s)]
+def E (K : String) (s : Text) (i : Nat) (c : Char) : Env := [("self", selfObj K s), ("i", .int i), ("base", .str [c])]
 
 def loopBody : List Stmt :=
   [(.ifS (.cmp (.name "base") [(.notIn, (.tuple [(.const (.str "A".toList)), (.const (.str "C".toList)), (.const (.str "G".toList)), (.const (.str "T".toList))]))]) [(.ret .message)] [])]
@@ -15,8 +15,8 @@ def okChar (b : Char) : Bool := b = 'A' || b = 'C' || b = 'G' || b = 'T'
 
 def MSG : Val := .str "<message>".toList
 
-def stepRes (s : Text) (j : Nat) (c' : Char) : Except PyErr (Env × Option Val) :=
-  .ok (E s j c', if okChar c' then Option.none else Option.some MSG)
+def stepRes (K : String) (s : Text) (j : Nat) (c' : Char) : Except PyErr (Env × Option Val) :=
+  .ok (E K s j c', if okChar c' then Option.none else Option.some MSG)
 
 theorem holds_textEq_char (H : Host) (a c : Char) : Query.holds H (Query.textEq [a] [c]) = decide (a = c) := by
   simp only [Query.holds]
@@ -36,11 +36,11 @@ macro "hit" a:term : tactic => `(tactic| (
   rfl))
 
 /-- one round of `for i, base in enumerate(self.value): if base not in ("A", "C", "G", "T"): return <message>` -/
-theorem step_eval (fp : Text → Option Text) (s : Text) (n i j : Nat) (c c' : Char) :
-    Tree.eval (host fp) (execStmts Generated.Bodies.program (host fp) (n + 5) (setVar (setVar (E s i c) "i" (.int j)) "base" (.str [c'])) loopBody)
-      = stepRes s j c' := by
-  refine Tree.Forall.eval (H := host fp) (t := execStmts Generated.Bodies.program (host fp) (n + 5) (setVar (setVar (E s i c) "i" (.int j)) "base" (.str [c'])) loopBody)
-    (P := fun r => r = stepRes s j c') ?_
+theorem step_eval (fp : Text → Option Text) (K : String) (s : Text) (n i j : Nat) (c c' : Char) :
+    Tree.eval (host fp) (execStmts Generated.Bodies.program (host fp) (n + 5) (setVar (setVar (E K s i c) "i" (.int j)) "base" (.str [c'])) loopBody)
+      = stepRes K s j c' := by
+  refine Tree.Forall.eval (H := host fp) (t := execStmts Generated.Bodies.program (host fp) (n + 5) (setVar (setVar (E K s i c) "i" (.int j)) "base" (.str [c'])) loopBody)
+    (P := fun r => r = stepRes K s j c') ?_
   tree_split h1
   · hit 'A'
   · tree_split h2
@@ -69,11 +69,11 @@ theorem step_eval (fp : Text → Option Text) (s : Text) (n i j : Nat) (c c' : C
 
 
 /-- the first round (no loop variables yet) of `for i, base in enumerate(self.value): if base not in ("A", "C", "G", "T"): return <message>` -/
-theorem step_eval0 (fp : Text → Option Text) (s : Text) (n i j : Nat) (c c' : Char) :
-    Tree.eval (host fp) (execStmts Generated.Bodies.program (host fp) (n + 5) (setVar (setVar (E0 s) "i" (.int j)) "base" (.str [c'])) loopBody)
-      = stepRes s j c' := by
-  refine Tree.Forall.eval (H := host fp) (t := execStmts Generated.Bodies.program (host fp) (n + 5) (setVar (setVar (E0 s) "i" (.int j)) "base" (.str [c'])) loopBody)
-    (P := fun r => r = stepRes s j c') ?_
+theorem step_eval0 (fp : Text → Option Text) (K : String) (s : Text) (n i j : Nat) (c c' : Char) :
+    Tree.eval (host fp) (execStmts Generated.Bodies.program (host fp) (n + 5) (setVar (setVar (E0 K s) "i" (.int j)) "base" (.str [c'])) loopBody)
+      = stepRes K s j c' := by
+  refine Tree.Forall.eval (H := host fp) (t := execStmts Generated.Bodies.program (host fp) (n + 5) (setVar (setVar (E0 K s) "i" (.int j)) "base" (.str [c'])) loopBody)
+    (P := fun r => r = stepRes K s j c') ?_
   tree_split h1
   · hit 'A'
   · tree_split h2
@@ -108,20 +108,20 @@ def stepFn (fp : Text → Option Text) (n : Nat) : Env → Nat → Val → M (En
   fun env i v => execStmts Generated.Bodies.program (host fp) (n + 5) (setVar (setVar env "i" (.int i)) "base" v) loopBody
 
 /-- the whole loop from a state in which the loop variables exist: `None` falls out iff every character is a base -/
-theorem loop_eval (fp : Text → Option Text) (s : Text) (n : Nat) (cs : List Char) :
+theorem loop_eval (fp : Text → Option Text) (K : String) (s : Text) (n : Nat) (cs : List Char) :
     ∀ (i j : Nat) (c : Char), ∃ env',
-      Tree.eval (host fp) (forLoop (stepFn fp n) (E s i c) j (cs.map charVal))
+      Tree.eval (host fp) (forLoop (stepFn fp n) (E K s i c) j (cs.map charVal))
         = .ok (env', if cs.all okChar then Option.none else Option.some MSG) := by
   induction cs with
-  | nil => intro i j c; exact ⟨E s i c, rfl⟩
+  | nil => intro i j c; exact ⟨E K s i c, rfl⟩
   | cons c' cs ih =>
     intro i j c
     simp only [List.map_cons, forLoop, M.bind]
     erw [Tree.eval_bind]
-    have hs : Tree.eval (host fp) (stepFn fp n (E s i c) j (charVal c')) = stepRes s j c' := step_eval fp s n i j c c'
+    have hs : Tree.eval (host fp) (stepFn fp n (E K s i c) j (charVal c')) = stepRes K s j c' := step_eval fp K s n i j c c'
     erw [hs]
     cases hk : okChar c'
-    · refine ⟨E s j c', ?_⟩
+    · refine ⟨E K s j c', ?_⟩
       simp only [stepRes, hk, List.all_cons, Bool.false_and]
       rfl
     · obtain ⟨env', he⟩ := ih j (j + 1) c'
@@ -130,40 +130,40 @@ theorem loop_eval (fp : Text → Option Text) (s : Text) (n : Nat) (cs : List Ch
       exact he
 
 /-- the whole loop from the state before the loop -/
-theorem loop_eval0 (fp : Text → Option Text) (s : Text) (n : Nat) (cs : List Char) : ∃ env',
-    Tree.eval (host fp) (forLoop (stepFn fp n) (E0 s) 0 (cs.map charVal))
+theorem loop_eval0 (fp : Text → Option Text) (K : String) (s : Text) (n : Nat) (cs : List Char) : ∃ env',
+    Tree.eval (host fp) (forLoop (stepFn fp n) (E0 K s) 0 (cs.map charVal))
       = .ok (env', if cs.all okChar then Option.none else Option.some MSG) := by
   cases cs with
-  | nil => exact ⟨E0 s, rfl⟩
+  | nil => exact ⟨E0 K s, rfl⟩
   | cons c' cs =>
     simp only [List.map_cons, forLoop, M.bind]
     erw [Tree.eval_bind]
-    have hs : Tree.eval (host fp) (stepFn fp n (E0 s) 0 (charVal c')) = stepRes s 0 c' := step_eval0 fp s n 0 0 'x' c'
+    have hs : Tree.eval (host fp) (stepFn fp n (E0 K s) 0 (charVal c')) = stepRes K s 0 c' := step_eval0 fp K s n 0 0 'x' c'
     erw [hs]
     cases hk : okChar c'
-    · refine ⟨E s 0 c', ?_⟩
+    · refine ⟨E K s 0 c', ?_⟩
       simp only [stepRes, hk, List.all_cons, Bool.false_and]
       rfl
-    · obtain ⟨env', he⟩ := loop_eval fp s n cs 0 1 c'
+    · obtain ⟨env', he⟩ := loop_eval fp K s n cs 0 1 c'
       refine ⟨env', ?_⟩
       simp only [stepRes, hk, List.all_cons, Bool.true_and]
       exact he
 
 def forStmt : Stmt := Stmt.forS (some "i") "base" ((Expr.name "self").attr "value") loopBody
 
-theorem for_eval (fp : Text → Option Text) (s : Text) : ∃ env',
-    Tree.eval (host fp) (execStmt Generated.Bodies.program (host fp) 61 (E0 s) forStmt)
+theorem for_eval (fp : Text → Option Text) (K : String) (s : Text) (n : Nat) : ∃ env',
+    Tree.eval (host fp) (execStmt Generated.Bodies.program (host fp) (n + 6) (E0 K s) forStmt)
       = .ok (env', if s.all okChar then Option.none else Option.some MSG) := by
   conv => enter [1, env', 1, 2]; whnf
-  exact loop_eval0 fp s 55 s
+  exact loop_eval0 fp K s n s
 
 def restStmts : List Stmt := [forStmt, Stmt.ret (Expr.const Val.none)]
 
 /-- the loop and the final `return None`: `None` iff every character is a base -/
-theorem rest_eval (fp : Text → Option Text) (s : Text) : ∃ env',
-    Tree.eval (host fp) (execStmts Generated.Bodies.program (host fp) 62 (E0 s) restStmts)
+theorem rest_eval (fp : Text → Option Text) (K : String) (s : Text) (n : Nat) : ∃ env',
+    Tree.eval (host fp) (execStmts Generated.Bodies.program (host fp) (n + 7) (E0 K s) restStmts)
       = .ok (env', some (if s.all okChar then Val.none else MSG)) := by
-  obtain ⟨env1, h1⟩ := for_eval fp s
+  obtain ⟨env1, h1⟩ := for_eval fp K s n
   conv => enter [1, env', 1, 2]; whnf
   cases hk : s.all okChar
   · refine ⟨env1, ?_⟩
@@ -180,13 +180,13 @@ theorem vDna_of_ne (s : Text) (hs : s ≠ ['-']) : vDna (.atom (.str s)) = !s.al
   rfl
 
 /-- the whole method body on a text value -/
-theorem body_eval (fp : Text → Option Text) (s : Text) : ∃ env',
-    Tree.eval (host fp) (execStmts Generated.Bodies.program (host fp) 63 (E0 s) Generated.Bodies.NullableDnaString____validate__.body)
+theorem body_eval (fp : Text → Option Text) (K : String) (s : Text) (n : Nat) : ∃ env',
+    Tree.eval (host fp) (execStmts Generated.Bodies.program (host fp) (n + 8) (E0 K s) Generated.Bodies.NullableDnaString____validate__.body)
       = .ok (env', some (if vDna (.atom (.str s)) then MSG else Val.none)) := by
   by_cases hs : s = ['-']
   · subst hs
     exact ⟨_, rfl⟩
-  · obtain ⟨env1, h1⟩ := rest_eval fp s
+  · obtain ⟨env1, h1⟩ := rest_eval fp K s n
     refine ⟨env1, ?_⟩
     conv => lhs; arg 2; whnf
     simp only [Tree.eval]
@@ -208,15 +208,15 @@ theorem body_eval (fp : Text → Option Text) (s : Text) : ∃ env',
     returned value -/
 theorem runTree_shape (fp : Text → Option Text) (s : Text) :
     ∃ K : Except PyErr (Env × Option Val) → Tree (Except PyErr (Val × Env)),
-      runTree Generated.Bodies.program (host fp) "NullableDnaString" "__validate__" [selfObj s]
-        = Tree.bind (execStmts Generated.Bodies.program (host fp) 63 (E0 s) Generated.Bodies.NullableDnaString____validate__.body) K
+      runTree Generated.Bodies.program (host fp) "NullableDnaString" "__validate__" [selfObj "NullableDnaString" s]
+        = Tree.bind (execStmts Generated.Bodies.program (host fp) (55 + 8) (E0 "NullableDnaString" s) Generated.Bodies.NullableDnaString____validate__.body) K
       ∧ ∀ env' v, K (.ok (env', some v)) = M.ok (v, env') :=
   ⟨_, rfl, fun _ _ => rfl⟩
 
 theorem run_eval (fp : Text → Option Text) (s : Text) : ∃ env',
-    run Generated.Bodies.program (host fp) "NullableDnaString" "__validate__" [selfObj s]
+    run Generated.Bodies.program (host fp) "NullableDnaString" "__validate__" [selfObj "NullableDnaString" s]
       = .ok (if vDna (.atom (.str s)) then MSG else Val.none, env') := by
-  obtain ⟨env', h⟩ := body_eval fp s
+  obtain ⟨env', h⟩ := body_eval fp "NullableDnaString" s 55
   obtain ⟨K, hK, hK2⟩ := runTree_shape fp s
   refine ⟨env', ?_⟩
   unfold run
@@ -241,6 +241,125 @@ theorem validate_NullableDnaString (fp) : ∀ v : PyVal, hookInvalid fp "Nullabl
   cases v with
   | atom a => cases a with
     | str s => exact validate_str_NullableDnaString fp s
+    | _ => rfl
+  | list xs => rfl
+  | tuple xs => rfl
+
+/-! ### `DnaString`: `msg = super().__validate__()`, then an empty text is refused too -/
+
+def superE : Expr := Expr.superCall "DnaString" "__validate__" []
+def D : String := "DnaString"
+def verdict (s : Text) : Val := if vDna (.atom (.str s)) then MSG else Val.none
+
+theorem super_shape (fp : Text → Option Text) (s : Text) :
+    ∃ (K1 : Except PyErr (Env × Option Val) → Tree (Except PyErr (Val × Env))) (K2 : Except PyErr (Val × Env) → Tree (Except PyErr Val)),
+      evalExpr Generated.Bodies.program (host fp) 61 (E0 D s) superE
+        = Tree.bind (Tree.bind (execStmts Generated.Bodies.program (host fp) (51 + 8) (E0 D s) Generated.Bodies.NullableDnaString____validate__.body) K1) K2
+      ∧ (∀ env' v, K1 (.ok (env', some v)) = M.ok (v, env')) ∧ (∀ r, K2 (.ok r) = M.ok r.1) :=
+  ⟨_, _, rfl, fun _ _ => rfl, fun _ => rfl⟩
+
+theorem super_eval (fp : Text → Option Text) (s : Text) :
+    Tree.eval (host fp) (evalExpr Generated.Bodies.program (host fp) 61 (E0 D s) superE) = .ok (verdict s) := by
+  obtain ⟨env', h⟩ := body_eval fp D s 51
+  obtain ⟨K1, K2, hK, hK1, hK2⟩ := super_shape fp s
+  rw [hK]
+  erw [Tree.eval_bind, Tree.eval_bind, h, hK1]
+  erw [show Tree.eval (host fp) (M.ok (verdict s, env')) = .ok (verdict s, env') from rfl, hK2]
+  rfl
+
+def E1 (s : Text) (v : Val) : Env := [("self", selfObj D s), ("msg", v)]
+
+theorem assign_shape (fp : Text → Option Text) (s : Text) :
+    ∃ K : Except PyErr Val → Tree (Except PyErr (Env × Option Val)),
+      execStmt Generated.Bodies.program (host fp) 62 (E0 D s) (Stmt.assign "msg" superE)
+        = Tree.bind (evalExpr Generated.Bodies.program (host fp) 61 (E0 D s) superE) K
+      ∧ ∀ v, K (.ok v) = M.ok (E1 s v, Option.none) :=
+  ⟨_, rfl, fun _ => rfl⟩
+
+theorem assign_eval (fp : Text → Option Text) (s : Text) :
+    Tree.eval (host fp) (execStmt Generated.Bodies.program (host fp) 62 (E0 D s) (Stmt.assign "msg" superE))
+      = .ok (E1 s (verdict s), Option.none) := by
+  obtain ⟨K, hK, hK2⟩ := assign_shape fp s
+  rw [hK]
+  erw [Tree.eval_bind, super_eval, hK2]
+  rfl
+
+def EMPTYMSG : Val := .str "Found an empty string".toList
+
+def tailStmts : List Stmt :=
+  [(.ifS (.and [(.cmp (.name "msg") [(.is_, (.const .none))]), (.not (.attr (.name "self") "value"))]) [(.ret (.const (.str "Found an empty string".toList)))] [(.ret (.name "msg"))])]
+
+def final (s : Text) : Val :=
+  if vDna (.atom (.str s)) then MSG else if s.isEmpty then EMPTYMSG else Val.none
+
+theorem tail_eval (fp : Text → Option Text) (s : Text) :
+    Tree.eval (host fp) (execStmts Generated.Bodies.program (host fp) 62 (E1 s (verdict s)) tailStmts)
+      = .ok (E1 s (verdict s), some (final s)) := by
+  cases hv : vDna (.atom (.str s))
+  · simp only [verdict, final, hv, Bool.false_eq_true, if_false]
+    refine Tree.Forall.eval (H := host fp) (t := execStmts Generated.Bodies.program (host fp) 62 (E1 s Val.none) tailStmts)
+      (P := fun r => r = .ok (E1 s Val.none, some (if s.isEmpty then EMPTYMSG else Val.none))) ?_
+    tree_split h1
+    · tree_leaf
+      have : s.isEmpty = true := h1
+      simp only [this, if_true]
+      try rfl
+    · tree_leaf
+      have : s.isEmpty = false := h1
+      simp only [this, Bool.false_eq_true, if_false]
+      try rfl
+  · simp only [verdict, final, hv, if_true]
+    rfl
+
+theorem body2_shape (fp : Text → Option Text) (s : Text) :
+    ∃ K : Except PyErr (Env × Option Val) → Tree (Except PyErr (Env × Option Val)),
+      execStmts Generated.Bodies.program (host fp) 63 (E0 D s) Generated.Bodies.DnaString____validate__.body
+        = Tree.bind (execStmt Generated.Bodies.program (host fp) 62 (E0 D s) (Stmt.assign "msg" superE)) K
+      ∧ ∀ env', K (.ok (env', Option.none)) = execStmts Generated.Bodies.program (host fp) 62 env' tailStmts :=
+  ⟨_, rfl, fun _ => rfl⟩
+
+theorem body2_eval (fp : Text → Option Text) (s : Text) :
+    Tree.eval (host fp) (execStmts Generated.Bodies.program (host fp) 63 (E0 D s) Generated.Bodies.DnaString____validate__.body)
+      = .ok (E1 s (verdict s), some (final s)) := by
+  obtain ⟨K, hK, hK2⟩ := body2_shape fp s
+  rw [hK]
+  erw [Tree.eval_bind, assign_eval, hK2, tail_eval]
+
+theorem runTree2_shape (fp : Text → Option Text) (s : Text) :
+    ∃ K : Except PyErr (Env × Option Val) → Tree (Except PyErr (Val × Env)),
+      runTree Generated.Bodies.program (host fp) "DnaString" "__validate__" [selfObj D s]
+        = Tree.bind (execStmts Generated.Bodies.program (host fp) 63 (E0 D s) Generated.Bodies.DnaString____validate__.body) K
+      ∧ ∀ env' v, K (.ok (env', some v)) = M.ok (v, env') :=
+  ⟨_, rfl, fun _ _ => rfl⟩
+
+theorem run2_eval (fp : Text → Option Text) (s : Text) :
+    run Generated.Bodies.program (host fp) "DnaString" "__validate__" [selfObj D s] = .ok (final s, E1 s (verdict s)) := by
+  obtain ⟨K, hK, hK2⟩ := runTree2_shape fp s
+  unfold run
+  rw [hK]
+  erw [Tree.eval_bind, body2_eval, hK2]
+  rfl
+
+/-- `DnaString.__validate__` on a text value: the inherited loop, then an empty text is refused too -/
+theorem validate_str_DnaString (fp : Text → Option Text) (s : Text) :
+    hookInvalid fp "DnaString" (emb (.atom (.str s))) = modelInvalid "DnaString" (.atom (.str s)) := by
+  have hm : modelInvalid "DnaString" (.atom (.str s))
+      = .ok (if vDna (.atom (.str s)) then true else !(PyVal.atom (.str s)).truthy) := rfl
+  rw [hm]
+  unfold hookInvalid
+  conv => lhs; whnf
+  erw [run2_eval fp s]
+  cases hv : vDna (.atom (.str s))
+  · cases s with
+    | nil => simp only [final, hv]; rfl
+    | cons c cs => simp only [final, hv]; rfl
+  · simp only [final, hv]; rfl
+
+theorem validate_DnaString (fp) : ∀ v : PyVal, hookInvalid fp "DnaString" (emb v) = modelInvalid "DnaString" v := by
+  intro v
+  cases v with
+  | atom a => cases a with
+    | str s => exact validate_str_DnaString fp s
     | _ => rfl
   | list xs => rfl
   | tuple xs => rfl
